@@ -35,7 +35,7 @@ MENU = ['fail', 'setup_err', 'teardown_err', 'cleanup_err', 'body+teardown',
 EXCS = ['ValueError', 'KeyError', 'User', 'Deep', 'BadStr', 'Unicode',
         'Recursion', 'Stop', 'OSError', 'Chained', 'Context', 'Chain3',
         'Group', 'Noted', 'Syntax', 'Indent', 'CauseCycle', 'ContextCycle',
-        'SelfCause']
+        'SelfCause', 'Empty', 'NIEbare', 'Blank', 'NLfirst']
 
 
 def _o_filter(case):
@@ -48,7 +48,7 @@ def _o_filter(case):
 ENV_PASSES = [{'name': 'python -O', 'argv': ['-O'], 'env': {}, 'filter': _o_filter},
               {'name': 'C locale', 'argv': ['-X', 'utf8=0'],
                'env': {'LC_ALL': 'C', 'LANG': 'C', 'PYTHONUTF8': '0', 'PYTHONCOERCECLOCALE': '0', 'PYTHONIOENCODING': 'utf-8'},
-               'filter': lambda case: str(case[5]).startswith('xml')}]
+               'filter': lambda case: str(case[5]).startswith('xml') or case[5] == 'asciiout'}]
 
 
 def _menu():
@@ -60,6 +60,9 @@ def _menu():
     out.append({'s': 'sub:0,1,1', 'e': 'BadStr'})
     # doctest cases: their failures take the DocTestFailureException path of
     # the formatter
+    # a faulty test that has written bytes which are not UTF-8 to .buffer
+    out.append({'s': 'error', 'w': [['o', 'caf\xe9 \xff\xfe\n', 'latin1']]})
+    out.append({'s': 'fail', 'w': [['e', '\xff\n', 'latin1'], ['o', 'text\n', False]]})
     out.append({'dt': 'string', 's': 'fail', 'dk': 'diff'})
     out.append({'dt': 'string', 's': 'fail', 'dk': 'exc'})
     out.append({'dt': 'file', 's': 'fail', 'dk': 'diff'})
@@ -80,6 +83,21 @@ def cases(tier, seed):
     for sc in ({'s': 'error', 'msg': 'caf\xe9 \u2028 \U0001f600'}, {'s': 'fail', 'mn': 'gr\xf6\xdfe'}):
         for mode in ('xml', 'xml+j2'):
             yield ['U1A2', ['pass', sc, 'pass'], {}, False, 0, mode]
+    # a C locale (the environment pass): stdout cannot encode what an erroring
+    # test printed
+    for sc in ({'s': 'error', 'w': [['o', 'caf\xe9 \u2028\n', False]]},
+               {'s': 'error', 'w': [['e', 'gr\xf6\xdfe\n', False]]},
+               {'s': 'setup_err', 'ws': [['o', '\U0001f600\n', False]]},
+               {'s': 'error', 'w': [['o', 'caf\xe9\n', True]]}):
+        for buf in (False, True):
+            for v in (0, 2):
+                yield ['U1A2', ['pass', sc, 'pass'], {}, buf, v, 'asciiout']
+                yield ['A1B2c', [sc, 'pass', 'fail'], {}, buf, v, 'asciiout']
+    # --xml with every exception shape (tests) and a failing layer hook
+    for e in EXCS:
+        for mode in ('xml', 'xml+j2'):
+            yield ['U1A2', ['pass', {'s': 'error', 'e': e}, 'pass'], {}, False, 0, mode]
+            yield ['A1B2c', [{'s': 'sub:0,1,1', 'e': e}, 'pass', 'fail'], {}, True, 2, mode]
     for nie in (None, 1, 7):
         for buf in (False, True):
             for mode in ('seq', 'j2', 'j3', 'c', 'p'):
@@ -139,7 +157,14 @@ def run_case(case):
     else:
         spec = ow.build(shape, scripts, lf)
     argv = argv_of(buf, v, mode)
-    res = runrt.run_world(spec, argv)
+    if mode == 'asciiout':
+        if os.environ.get('VT_ENV_PASS') is None:
+            # only meaningful where the locale's encoding and the encoding of
+            # sys.stdout agree (the C-locale pass)
+            return {'nontrivial': False, 'violations': [], 'outcome': 'asciiout skipped'}
+        res = runrt.run_world(spec, argv, parent_encoding=('ascii', 'surrogateescape'))
+    else:
+        res = runrt.run_world(spec, argv)
     if mode.startswith('xml'):
         import shutil
         shutil.rmtree('/dev/shm/vt-c04-xml-%d' % os.getpid(), ignore_errors=True)
